@@ -17,7 +17,7 @@ from pathlib import PurePosixPath
 
 from pydantic import BaseModel, Field, computed_field
 
-from pydjinni.generator.filters import headers, quote
+from pydjinni.generator.filters import headers, quote, string_literal
 from pydjinni.generator.objc.objc.comment_renderer import DocCCommentRenderer
 from pydjinni.generator.objc.objc.config import ObjcConfig
 from pydjinni.generator.objc.objc.keywords import swift_keywords, keywords
@@ -78,7 +78,7 @@ class ObjcBaseCommentModel(BaseModel):
     @property
     def deprecated(self) -> str:
         if isinstance(self.decl.deprecated, str):
-            return 'DEPRECATED_MSG_ATTRIBUTE("' + self.decl.deprecated.replace('\\', r'\\').replace('\n', r'\n').replace('"', r'\"') + '")'
+            return 'DEPRECATED_MSG_ATTRIBUTE(' + string_literal(self.decl.deprecated) + ')'
         elif self.decl.deprecated is True:
             return "DEPRECATED_ATTRIBUTE"
         else:
